@@ -1,6 +1,6 @@
 (* What Gen/Loggers.v (translated from Entry.newChildLogger and the head of newentry, slog/entry.go)
    mentions, and reference versions (same signatures) - the fallbacks.  No proofs here. *)
-Require Import Verif.Model.Base Verif.Model.Decision Verif.Model.GoSem.
+Require Import Verif.Model.Base Verif.Model.Decision Verif.Model.Dec Verif.Model.GoSem.
 
 Definition eref : Type := Z.             (* a *Entry: which logger *)
 Definition eref_nil : eref := -1.
@@ -27,3 +27,12 @@ Definition new_child_ref (as_string_of_any : garg -> option bytes) (rnd_name : b
 
 Definition child_defaults_ref (p_present p_useJSON p_useColor : bool) (p_level g_deflevel : Z) : bool * bool * Z :=
   if p_present then (p_useJSON, p_useColor, p_level) else (false, true, g_deflevel).
+
+(* ---- the skip count ---- *)
+Definition set_skip_ref (s : eref) (s_extraFrames : Z) (extraFrames : Z) : Z := extraFrames.
+Definition with_skip_ref (s : eref) (s_extraFrames : Z) (extraFrames : Z) : eref * Z := (s, extraFrames).
+(* the name of the child WithSkip(n) asks for: c/<name>[<n>] *)
+Definition skip_child_name (name : bytes) (n : Z) : bytes := [x63; x2f] ++ name ++ [x5b] ++ dec_of_Z n ++ [x5d].
+Definition with_skip_child_ref (f_newChild : bytes -> eref) (f_withSkip : eref -> Z -> eref) (s_name : bytes) (s_extraFrames : Z)
+  (extraFrames : Z) : eref :=
+  f_withSkip (f_newChild (skip_child_name s_name extraFrames)) extraFrames.
